@@ -781,6 +781,26 @@ class ImplGraph(ImplFeat):
         self._sync_heap()
         return str(self._fid(obs))
 
+    def cmd_fresn(self, ts):
+        """the updater is built with subscribe=False (its helper is obtained the ordinary way) and subscribed later by `fsub`"""
+        g = BUILDERS[ts[0]](self.instance)
+        try:
+            obs = ResidualGraphUpdater(self.dispatcher, g, subscribe=False, remove_completed_machine_nodes=ts[1] == "1",
+                                       remove_completed_job_nodes=ts[2] == "1")
+        except Exception:  # pylint: disable=broad-except
+            return "raise"
+        self._sync_heap()
+        if not any(o is obs for o in self.fheap):
+            self.fheap.append(obs)
+        return str(self._fid(obs))
+
+    def cmd_fsub(self, ts):
+        k = len(self.fheap) - 1 if ts[0] == "last" else int(ts[0])
+        if k >= len(self.fheap) or any(s is self.fheap[k] for s in self.dispatcher.subscribers):
+            return "raise"
+        self.dispatcher.subscribe(self.fheap[k])
+        return "ok"
+
     def cmd_fresx(self, ts):
         """the graph handed to the updater was pruned by its owner beforehand"""
         g = BUILDERS[ts[0]](self.instance)
@@ -798,7 +818,10 @@ class ImplGraph(ImplFeat):
     def fmt_fobs(self, i):
         o = self.fheap[i]
         if isinstance(o, ResidualGraphUpdater):
-            parts = str(self._fid(o._is_completed_observer)) if o._is_completed_observer is not None else ""  # pylint: disable=protected-access
+            helper = o._is_completed_observer  # pylint: disable=protected-access
+            if helper is not None and not any(x is helper for x in self.fheap):
+                self.fheap.append(helper)           # a helper that was never subscribed: shown all the same
+            parts = str(self._fid(helper)) if helper is not None else ""
             return f"{i}:residual({parts}) {fmt_graph(o.job_shop_graph)}"
         return super().fmt_fobs(i)
 
@@ -1262,6 +1285,11 @@ class ImplEnv(ImplViz):
         except Exception:  # pylint: disable=broad-except
             return "raise"
         self.env.reward_function = obs
+        return "ok"
+
+    def cmd_edreset(self, ts):
+        """`env.dispatcher.reset()` - not `env.reset()`"""
+        self.env.dispatcher.reset()
         return "ok"
 
     def cmd_estep(self, ts):
